@@ -102,7 +102,7 @@ def formatFloatGo (bits : Nat) : Flt → Str
   | .nan => [78, 97, 78]                         -- "NaN"
   | .inf neg => (if neg then [45] else [43]) ++ [73, 110, 102]   -- "+Inf" / "-Inf"
   | .fin neg m e =>
-    if m = 0 then (if neg then [45, 48] else [48])
+    if m = 0 then (if e = -1074 then (if neg then [45, 48] else [48]) else [])   -- ±0 (canonical datum only)
     else shortestSearch bits (.fin neg m e) neg (GoSem.F64.num m e) (GoSem.F64.den e) 17 1
 
 /-! ### the instance -/
